@@ -806,37 +806,7 @@ def run(chk):
         return True, "", [msg[0].loc] + sorted("%s" % c.loc for c in b.calls(normal_only=True) if c.bb in ts | md)
     chk.ob("C13.R9:terminal-record", "the terminal record has the message line, and the timestamp and module of every event that carries them", terminal_record)
 
-    def metric_seq_flag():
-        """The metric value extractor takes a flat sequence of numbers (one data point each) and nothing nested: `seq_begin` fails when a sequence is
-        already open and otherwise marks one open on every path; `seq_end` clears the mark.  Without the mark (or the failure) a sequence of
-        sequences is flattened into points instead of the event falling back to logs."""
-        ms = {b.method: b for k, b in P.bodies.items() if b.crate == "emit_otlp" and not b.is_closure and "metrics" in b.file and "Extract<" in k}
-        if "seq_begin" not in ms or "seq_end" not in ms:
-            raise mir.AnchorMissing("seq_begin / seq_end of the metric value extractor")
-        def flag_stores(b):
-            return [(bb, mir.o_const_value(b.origin(st["rv"]["op"]))) for bb, j, st in b.statements(normal_only=True) if st["k"] == "assign" and st["place"].get("p")
-                    and st["rv"]["k"] == "use" and [p_.get("n") for p_ in st["place"]["p"] if isinstance(p_, dict) and "n" in p_][-1:] == ["in_seq"]]
-        b = ms["seq_begin"]
-        st = flag_stores(b)
-        tests = [(bb, t) for bb, t in b.switches() if (mir.o_field_path(mir.norm_bool(b.switch_origin(bb))[0])[1] or [None])[-1] == "in_seq"]
-        errs = [c for c in b.calls(normal_only=True) if (c.callee.get("path") or "").endswith("sval::result::error") or c.callee.get("name") == "error"]
-        if len(tests) != 1 or not errs:
-            return False, "the extractor's seq_begin does not reject a sequence inside a sequence (test of in_seq, then sval::error())", [], b.span
-        bb, t = tests[0]
-        so, pos = mir.norm_bool(b.switch_origin(bb))
-        open_edge = [n for v, n in [(v, n) for v, n in t["targets"]] + [("otherwise", t["otherwise"])] if (str(v) != "0") == pos]
-        if not all(b.must_pass({e.bb for e in errs}, start=n) for n in open_edge):
-            return False, "with a sequence already open, seq_begin can return without failing: nested sequences are flattened into data points", [], b.span
-        closed_edge = [n for v, n in [(v, n) for v, n in t["targets"]] + [("otherwise", t["otherwise"])] if (str(v) != "0") != pos]
-        trues = {x for x, v in st if v is True}
-        if not trues or not all(b.must_pass(trues, start=n) for n in closed_edge):
-            return False, "seq_begin does not mark the sequence as open (in_seq = true) on every accepting path", [], b.span
-        e = ms["seq_end"]
-        falses = {x for x, v in flag_stores(e) if v is False}
-        if not falses or not e.must_pass(falses):
-            return False, "seq_end does not clear in_seq: a second, separate sequence value would be rejected - or, with the mark never set, nothing is", [], e.span
-        return True, "", [b.span, e.span]
-    chk.ob("C13.R8:metric-seq-flag", "the metric value extractor accepts one flat sequence and rejects nesting", metric_seq_flag)
+    metric_seq_flag_rule(chk, P, "C13.R8:metric-seq-flag")
     chk.ob("C13.R8:metric-points-kept", "a metric sample reaches its data point with its value, start time and time", metric_points_kept)
 
     # every property reaches the sinks by enumeration: a props list that ends its own enumeration early (an absent #[emit::optional] value) loses
@@ -916,6 +886,8 @@ def run(chk):
     from . import shapes
     shapes.sum_points_add(chk, P, "C13.R8:sum-accumulates")
     shapes.range_is_end_minus_start(chk, P, "C13.R8:range-end-minus-start")
+    decline_conditions_rule(chk, P, "C13.R8:decline-conditions")
+    span_status_rule(chk, P, "C13.R4:span-status-by-level")
     return chk
 
 
@@ -1032,6 +1004,40 @@ def schema_rule(chk, P):
                "and JSON name (%d pairs against %d official fields)" % (total, n_off), sites=["%d pairs" % total])
 
 
+def metric_seq_flag_rule(chk, P, key):
+    def metric_seq_flag():
+        """The metric value extractor takes a flat sequence of numbers (one data point each) and nothing nested: `seq_begin` fails when a sequence is
+        already open and otherwise marks one open on every path; `seq_end` clears the mark.  Without the mark (or the failure) a sequence of
+        sequences is flattened into points instead of the event falling back to logs."""
+        ms = {b.method: b for k, b in P.bodies.items() if b.crate == "emit_otlp" and not b.is_closure and "metrics" in b.file and "Extract<" in k}
+        if "seq_begin" not in ms or "seq_end" not in ms:
+            raise mir.AnchorMissing("seq_begin / seq_end of the metric value extractor")
+        def flag_stores(b):
+            return [(bb, mir.o_const_value(b.origin(st["rv"]["op"]))) for bb, j, st in b.statements(normal_only=True) if st["k"] == "assign" and st["place"].get("p")
+                    and st["rv"]["k"] == "use" and [p_.get("n") for p_ in st["place"]["p"] if isinstance(p_, dict) and "n" in p_][-1:] == ["in_seq"]]
+        b = ms["seq_begin"]
+        st = flag_stores(b)
+        tests = [(bb, t) for bb, t in b.switches() if (mir.o_field_path(mir.norm_bool(b.switch_origin(bb))[0])[1] or [None])[-1] == "in_seq"]
+        errs = [c for c in b.calls(normal_only=True) if (c.callee.get("path") or "").endswith("sval::result::error") or c.callee.get("name") == "error"]
+        if len(tests) != 1 or not errs:
+            return False, "the extractor's seq_begin does not reject a sequence inside a sequence (test of in_seq, then sval::error())", [], b.span
+        bb, t = tests[0]
+        so, pos = mir.norm_bool(b.switch_origin(bb))
+        open_edge = [n for v, n in [(v, n) for v, n in t["targets"]] + [("otherwise", t["otherwise"])] if (str(v) != "0") == pos]
+        if not all(b.must_pass({e.bb for e in errs}, start=n) for n in open_edge):
+            return False, "with a sequence already open, seq_begin can return without failing: nested sequences are flattened into data points", [], b.span
+        closed_edge = [n for v, n in [(v, n) for v, n in t["targets"]] + [("otherwise", t["otherwise"])] if (str(v) != "0") != pos]
+        trues = {x for x, v in st if v is True}
+        if not trues or not all(b.must_pass(trues, start=n) for n in closed_edge):
+            return False, "seq_begin does not mark the sequence as open (in_seq = true) on every accepting path", [], b.span
+        e = ms["seq_end"]
+        falses = {x for x, v in flag_stores(e) if v is False}
+        if not falses or not e.must_pass(falses):
+            return False, "seq_end does not clear in_seq: a second, separate sequence value would be rejected - or, with the mark never set, nothing is", [], e.span
+        return True, "", [b.span, e.span]
+    chk.ob(key, "the metric value extractor accepts one flat sequence and rejects nesting", metric_seq_flag)
+
+
 def points_declined_rule(chk, P, key):
     """A metric sample goes to the metrics signal unless its encoder *declines* it, in which case it is exported as a log record: `into_points`
     returning None is that decision.  The only sample without a data point is one without numbers: every path of every `into_points` that returns
@@ -1072,3 +1078,157 @@ def points_declined_rule(chk, P, key):
             raise mir.AnchorMissing("into_points impls (found %d)" % m)
         return True, "", ev
     chk.ob(key, "a metric sample is declined by its encoder (and falls back to logs) only when it has no numeric point", f)
+
+
+def decline_conditions_rule(chk, P, key):
+    """Which signal an event goes to is decided by the encoders declining it (encode_event returning None sends it on to the logs signal).  The
+    conditions under which each encoder declines are part of the routing contract: a span is declined only for its kind and for not having a range
+    extent; a metric sample only for its kind, for having no `metric_value` and for having no numeric point.  Every None-returning path of an
+    encode_event ends in one of these decisions - anything else (ids missing, no aggregation given ..) silently reroutes events to logs."""
+    ALLOWED = {
+        "traces": ("kind", "extent-range"),
+        "metrics": ("kind", "get:metric_value", "points"),
+        "logs": (),
+    }
+
+    def category(b, o):
+        x = o
+        if x[0] == "discr":
+            x = x[1]
+        while x[0] in ("field", "downcast", "copy", "ref", "deref"):
+            x = x[1]
+        if x[0] != "call":
+            return "other:%s" % o_str(o)[:60]
+        c = x[1]
+        nm = c.callee.get("name")
+        full = c.callee.get("full") or c.callee.get("path") or ""
+        if nm == "matches" and "KindFilter" in full:
+            return "kind"
+        if nm == "branch":
+            inner = c.body.origin(c.args[0])
+            txt = o_str(inner)
+            st = c.callee.get("self_ty") or full
+            if "(u64, u64)" in st:
+                return "extent-range"
+            if "NumberDataPoint" in st:
+                return "points"
+            return "branch:%s" % st[:80]
+        if nm == "get" and len(c.args) >= 2:
+            kv = mir.o_const_value(c.body.origin(c.args[1], through_calls=("to_str", "deref", "as_ref", "borrow")))
+            return "get:%s" % kv
+        if nm in ("pull", "get"):
+            return "%s:?" % nm
+        if nm == "into_points" or "into_points" in o_str(x):
+            return "points"
+        return "call:%s" % nm
+    def f():
+        ev, n = [], 0
+        for k, b in sorted(P.bodies.items()):
+            if b.crate != "emit_otlp" or b.is_closure or not k.endswith("::encode_event") or "EventEncoder>" not in k:
+                continue
+            sig = "traces" if "traces" in k else ("metrics" if "metrics" in k else ("logs" if "logs" in k else None))
+            if sig is None:
+                continue
+            n += 1
+            for rb in b.return_blocks():
+                for path in b.acyclic_paths(0, rb, limit=6000):
+                    ps = mir.PathSummary(b, path)
+                    r = ps.ret()
+                    declined = (r[0] == "agg" and r[1].get("variant") == "None") or (r[0] == "call" and r[1].callee.get("name") == "from_residual")
+                    if not declined:
+                        continue
+                    ds = ps.decisions()
+                    if not ds:
+                        return False, "%s declines unconditionally" % k, [], b.span
+                    cat = category(b, ds[-1][1])
+                    if cat == "points" or cat.startswith("branch:") and "NumberDataPoint" in cat:
+                        cat = "points"
+                    if cat not in ALLOWED[sig]:
+                        return False, ("%s declines an event (returns None, so the event is exported as a log record or discarded) on a condition that is not part of "
+                                       "the routing contract of the %s signal: %s (allowed: %s)" % (k, sig, cat, ", ".join(ALLOWED[sig]) or "none")), [], b.span
+                    ev.append("%s: %s" % (sig, cat))
+        if n < 3:
+            raise mir.AnchorMissing("the three EventEncoder::encode_event impls (found %d)" % n)
+        return True, "", sorted(set(ev))
+    chk.ob(key, "an encoder declines an event only on the documented conditions of its signal (kind; range extent; metric value and points)", f)
+
+
+def span_status_rule(chk, P, key):
+    """The status of an exported span without an `err` follows its level: debug / info are Ok, warn / error are Error.  Decided as a table over the four
+    Level variants, whether the code is a match on the level or a comparison against a variant (Level's declared order is C17.R2's)."""
+    ORDER = ["Debug", "Info", "Warn", "Error"]
+    WANT = {"Debug": "Ok", "Info": "Ok", "Warn": "Error", "Error": "Error"}
+
+    def f():
+        bs = [b for k, b in P.bodies.items() if b.crate == "emit_otlp" and "PropsSpanAttributes" in k and k.endswith("::stream") and not b.is_closure]
+        if not bs:
+            raise mir.AnchorMissing("PropsSpanAttributes::stream")
+        b = bs[0]
+        lv = P.adt("emit::level::Level")
+        names = {str(v.get("discr", i)): v["name"] for i, v in enumerate(lv["variants"])}
+        got = {}
+        # assignments of a StatusCode constant / aggregate, guarded by a switch on the level's discriminant or a comparison with a Level constant
+        for bb, j, st in b.statements(normal_only=True):
+            if st["k"] != "assign" or st["rv"]["k"] != "agg" or not (st["rv"].get("adt") or "").endswith("StatusCode"):
+                continue
+            code = st["rv"].get("variant")
+            for gbb, vals, tgt in b.guards_of(bb):
+                so = b.switch_origin(gbb)
+                if so[0] == "discr" and "Level" in (b._op_ty(b.blocks[gbb]["term"]["discr"]) or "") or (so[0] == "discr" and "lvl" in o_str(so).lower() and False):
+                    pass
+                if so[0] == "discr":
+                    ty = ""
+                    try:
+                        ty = b.local_ty(b._op_local(b.blocks[gbb]["term"]["discr"])) or ""
+                    except Exception:
+                        ty = ""
+                    src = so[1]
+                    if "Level" not in o_str(src) and "Level" not in str(ty) and "level" not in o_str(src):
+                        continue
+                    listed = {str(v) for v, n in b.blocks[gbb]["term"]["targets"]}
+                    for v in vals if isinstance(vals, (list, tuple)) else [vals]:
+                        v = str(v)
+                        if v == "otherwise":
+                            for dv, nmv in names.items():
+                                if dv not in listed:
+                                    got.setdefault(nmv, set()).add(code)
+                        elif v in names:
+                            got.setdefault(names[v], set()).add(code)
+                else:
+                    so2, pos = mir.norm_bool(so)
+                    c = mir.norm_cmp(so2, lambda o: True)
+                    if c is None:
+                        continue
+                    op, l, r = c
+                    lvl_const = None
+                    for side in (l, r):
+                        if side[0] == "agg" and (side[1].get("adt") or "").endswith("level::Level"):
+                            lvl_const = (side[1].get("variant"), side is r)
+                        cv = mir.o_const_value(side)
+                        if isinstance(cv, dict) and cv.get("variant") in ORDER:
+                            lvl_const = (cv["variant"], side is r)
+                    if lvl_const is None:
+                        continue
+                    name, on_right = lvl_const
+                    if not on_right:
+                        op = {"Lt": "Gt", "Le": "Ge", "Gt": "Lt", "Ge": "Le", "Eq": "Eq", "Ne": "Ne"}[op]
+                    taken = ("0" not in [str(v) for v in vals]) == pos
+                    ki = ORDER.index(name)
+                    for i, nm in enumerate(ORDER):
+                        holds = {"Lt": i < ki, "Le": i <= ki, "Gt": i > ki, "Ge": i >= ki, "Eq": i == ki, "Ne": i != ki}[op]
+                        if holds == taken:
+                            got.setdefault(nm, set()).add(code)
+        if not got:
+            raise mir.AnchorMissing("a level-dependent StatusCode in PropsSpanAttributes::stream")
+        for nm in ORDER:
+            codes = got.get(nm, set())
+            # a level may be reached by several guards (nested decisions): the intersection semantics is approximated by requiring the wanted code to be
+            # the only one attributed through level decisions
+            if codes and codes != {WANT[nm]}:
+                return False, ("a span at level %s without an error is exported with status %s; the encoder's convention is Ok for debug / info and Error for "
+                               "warn / error" % (nm.lower(), "/".join(sorted(codes)))), [], b.span
+        missing = [nm for nm in ORDER if nm not in got]
+        if missing:
+            return False, "no status is derived for level(s) %s" % missing, [], b.span
+        return True, "", ["%s -> %s" % (nm, sorted(got[nm])[0]) for nm in ORDER]
+    chk.ob(key, "a span's exported status follows its level: Ok for debug / info, Error for warn / error", f)
